@@ -65,15 +65,17 @@ def aimed(rnd, tree, path, alpha, lg=1):
                     if isinstance(node.get(shape), dict):
                         keys += [k for k in node[shape] if isinstance(k, str)]
             keys = [k for k in keys if len(k) == 1 and 0x20 <= ord(k) < 0x7f] or list(",.(/\"!<")
-            for _ in range(rnd.choice([2, 3])):
-                k = rnd.choice(keys)
+            # every key of the table in turn (an aimed block must not depend on luck to reach the one key whose definition is odd)
+            order = list(dict.fromkeys(keys))
+            rnd.shuffle(order)
+            for k in order[:16]:
                 if rnd.random() < 0.4:
                     out += _typing(rnd, lg, alpha)
                 if rnd.random() < 0.3:
                     out.append("%d set_option %s %d" % (lg, rnd.choice(["full_shape", "ascii_punct"]), rnd.randint(0, 1)))
                 # the same punctuation key several times in a row: unique / alternating / pair / commit definitions differ
                 # exactly from the second press on
-                out += ["%d key %d 0" % (lg, ord(k))] * rnd.choice([1, 2, 2, 3, 5])
+                out += ["%d key %d 0" % (lg, ord(k))] * rnd.choice([2, 2, 3, 5])
                 out.append("%d %s" % (lg, rnd.choice(["get_context", "key 32 0", "key 65293 0", "select_on_page 0", "get_commit",
                                                      "key 65307 0", "page 0", "highlight 1", "delete 0"])))
         elif sec == "key_binder":
